@@ -205,6 +205,29 @@ def run(rep, tier, seed):
                 oracle_grid(sname, sl, tspan, None, False, fails, case)
             except Exception as ex:  # noqa
                 fails.append((case, f"{sname} raised {type(ex).__name__}: {str(ex)[:80]}"))
+    # ---- an iteration matrix that is exactly singular for the proposed step (y' = lam y with dt*gamma*lam = 1: gamma = 1/4 for rodas4 and
+    #      rodasp, so lam = 8 with hinit = 0.5, lam = 4 with hinit = 1): a well-posed problem; the run ends at tend or reports a failure
+    from scipy.sparse import csc_array as _csc
+    from Solverz.num_api.num_eqn import nDAE as _nDAE
+    for lam, h0 in ((8.0, 0.5), (4.0, 1.0), (16.0, 0.25)):
+        grow = _nDAE(_csc(np.array([[1.0]])), lambda t, y, p, lam=lam: lam * y, lambda t, y, p, lam=lam: _csc(np.array([[lam]])), {})
+        for scheme in ("rodas4", "rodasp"):
+            for tspan in ([0.0, 1.0], list(np.linspace(0.0, 1.0, 11))):
+                case = dict(problem=f"y'={lam:g}y", scheme=scheme, hinit=h0, tspan=tspan if len(tspan) == 2 else [0.0, "...", 1.0, len(tspan)])
+                try:
+                    sl = RC.quiet(Rodas, grow, tspan, np.array([1.0]), Opt(scheme=scheme, hinit=h0))
+                    oracle_grid(f"Rodas/{scheme}", sl, tspan, None, False, fails, case)
+                except Exception:  # noqa — raising is a reported failure
+                    pass
+    # ---- ode15s has no event location: an event function must be refused, not answered with None
+    try:
+        r_ev = RC.quiet(ode15s, rest, [0.0, 1.0], np.array([1.0]), Opt(event=lambda t, y: (np.array([y[0] - 0.5]), np.array([False]), np.array([0.0]))))
+        if r_ev is None or not hasattr(r_ev, "T"):
+            fails.append((dict(problem="y'=-y", solver="ode15s", event="y - 0.5, non-terminal"), f"ode15s with an event function returned {r_ev!r}: no times, no states, no failure"))
+        else:
+            oracle_grid("ode15s", r_ev, [0.0, 1.0], None, False, fails, dict(problem="y'=-y", solver="ode15s", event="y - 0.5"))
+    except Exception:  # noqa — a loud refusal
+        pass
     # ---- "the states at the requested nodes are as accurate as step values": harmonic oscillator with exact solution;
     #      the error at 401 requested nodes against the error at the step ends of the matching two-node run
     from scipy.sparse import csc_array as _csc
